@@ -100,6 +100,21 @@ SwapClassOn(pre, ev, p) ==
     THEN "KF-1" ELSE ""
 
 PairsSwapped(pre, ev) == {p \in Pairs(pre) : Len(SwapEvsOn(ev, p)) > 0}
+
+\* A swap event names its assets by bare identifier.  On a pair whose two assets carry the same identifier string (a
+\* cw20 token and a bank denom spelled like its address) that is ambiguous; for a swap sent to that pair directly or
+\* through the cw20 hook the offer asset is then the one the message declares (kind included), the ask asset the
+\* pair's other asset.  (Route hops over such a pair stay unresolved: the clauses that need the assets skip them.)
+AliasPair(w, p) == w.pair[p].a0.id = w.pair[p].a1.id
+DeclResolves(pre, ev, p) ==
+    IsSwapTx(ev) /\ SwapPair(ev) = p /\ SwapDecl(ev).offer.info \in {pre.pair[p].a0, pre.pair[p].a1}
+EvResolvable(pre, ev, p, e) ==
+    /\ HasId(pre, p, e.offer_asset) /\ HasId(pre, p, e.ask_asset)
+    /\ IF AliasPair(pre, p) THEN DeclResolves(pre, ev, p) ELSE e.offer_asset # e.ask_asset
+EvOffer(pre, ev, p, e) == IF AliasPair(pre, p) THEN SwapDecl(ev).offer.info ELSE InfoById(pre, p, e.offer_asset)
+EvAsk(pre, ev, p, e) ==
+    IF AliasPair(pre, p) THEN (IF SwapDecl(ev).offer.info = pre.pair[p].a0 THEN pre.pair[p].a1 ELSE pre.pair[p].a0)
+    ELSE InfoById(pre, p, e.ask_asset)
 NoLiquidityOpOn(ev, p) == Len(EvsOn(ev, "provide_liquidity", p)) = 0 /\ Len(EvsOn(ev, "withdraw_liquidity", p)) = 0
 
 C01_Product(pre, ev, post, p) ==
@@ -131,9 +146,9 @@ C02_Settle(pre, ev, post) ==
     C02_Applies(pre, ev) =>
         LET p == SwapPair(ev)
             e == SwapEvsOn(ev, p)[1]
-        IN  /\ HasId(pre, p, e.offer_asset) /\ HasId(pre, p, e.ask_asset) /\ e.offer_asset # e.ask_asset
-            /\ LET O == InfoById(pre, p, e.offer_asset)
-                   A == InfoById(pre, p, e.ask_asset)
+        IN  /\ EvResolvable(pre, ev, p, e)
+            /\ LET O == EvOffer(pre, ev, p, e)
+                   A == EvAsk(pre, ev, p, e)
                    trader == SwapTrader(ev)
                    recv == e.receiver
                    \* coins of the ask asset attached on top of the offer are one more declared movement
@@ -203,10 +218,10 @@ C06_Applies(pre, ev, p) == TxOk(ev) /\ p \in Pairs(pre) /\ Len(SwapEvsOn(ev, p))
 C06_Swap(pre, ev, p) ==
     C06_Applies(pre, ev, p) =>
         LET e == SwapEvsOn(ev, p)[1] IN
-        (HasId(pre, p, e.offer_asset) /\ HasId(pre, p, e.ask_asset) /\ e.offer_asset # e.ask_asset) =>
-            LET x == Bal(pre, InfoById(pre, p, e.offer_asset), p)
-                y == NAdd(Bal(pre, InfoById(pre, p, e.ask_asset), p),
-                          IF IsSwapTx(ev) /\ SwapPair(ev) = p THEN AttachedAsk(ev, InfoById(pre, p, e.ask_asset)) ELSE N0)
+        EvResolvable(pre, ev, p, e) =>
+            LET x == Bal(pre, EvOffer(pre, ev, p, e), p)
+                y == NAdd(Bal(pre, EvAsk(pre, ev, p, e), p),
+                          IF IsSwapTx(ev) /\ SwapPair(ev) = p THEN AttachedAsk(ev, EvAsk(pre, ev, p, e)) ELSE N0)
                 r == [ok |-> TRUE, ret |-> e.return_amount, spread |-> e.spread_amount, comm |-> e.commission_amount]
                 c == pre.pair[p].commission
             IN  /\ C06_Price(x, y, e.offer_amount, c, r)
@@ -293,8 +308,8 @@ C10_Applies(pre, ev) == C02_Applies(pre, ev) /\ SwapDecl(ev).ms.some
 C10_Swap(pre, ev) ==
     C10_Applies(pre, ev) =>
         LET p == SwapPair(ev)   e == SwapEvsOn(ev, p)[1] IN
-        (HasId(pre, p, e.offer_asset) /\ HasId(pre, p, e.ask_asset) /\ e.offer_asset # e.ask_asset) =>
-            LET oi == PosIn(pre, p, InfoById(pre, p, e.offer_asset)) IN
+        EvResolvable(pre, ev, p, e) =>
+            LET oi == PosIn(pre, p, EvOffer(pre, ev, p, e)) IN
             C10_Guard(SwapDecl(ev).bp, SwapDecl(ev).ms, e.offer_amount, e.return_amount, e.spread_amount,
                       DecAt(pre, p, oi), DecAt(pre, p, 1 - oi), OkRes)
 
